@@ -581,8 +581,10 @@ theorem logClearedAll_same : ∀ (l : List (Nat × Entry)) (s : State P), Same (
     obtain ⟨k, e⟩ := p
     exact (ih _).trans (same_logRemoved s k e .cleared)
 
-theorem clearAll_inv (cfg : Cfg) (ops : PolicyOps P) (o : Oracle) (s : State P) (hw : WF s) :
-    Inv (s.clearAll cfg ops o) := by
+/-- `clear` subtracts exactly what it removed (`fetch_sub`, /repo 7e5c084): well-formedness needs
+nothing, the accounting equation is preserved (it is no longer re-established from scratch). -/
+theorem clearAll_invD (cfg : Cfg) (ops : PolicyOps P) (o : Oracle) (s : State P) (hw : WF s) :
+    WF (s.clearAll cfg ops o) ∧ (Acc s → Acc (s.clearAll cfg ops o)) := by
   have h1 : Same ((List.range cfg.nshards).foldl
       (fun s i => (s.shardKeys cfg o.remHint i).foldl (fun s k => s.polRemove ops i k) s) s) s :=
     foldl_same _ (fun s i => foldl_same _ (fun s k => same_polRemove ops s i k) _ s) _ s
@@ -595,15 +597,25 @@ theorem clearAll_inv (cfg : Cfg) (ops : PolicyOps P) (o : Oracle) (s : State P) 
   have h3 : Same ((List.range cfg.nshards).foldl (fun s i => s.polClear ops i) ({ s2 with map := [] } : State P))
       ({ s2 with map := [] } : State P) := foldl_same _ (fun s i => same_polClear ops s i) _ _
   generalize (List.range cfg.nshards).foldl (fun s i => s.polClear ops i) ({ s2 with map := [] } : State P) = s3 at h3
-  obtain ⟨m3, _, n3⟩ := h3
+  obtain ⟨m3, c3, n3⟩ := h3
   refine ⟨⟨?_, ?_⟩, ?_⟩
   · show (keys s3.map).Nodup
     rw [m3]; exact List.nodup_nil
   · show ∀ sn, s3.snap = some sn → _
     rw [n3]; show ∀ sn, s2.snap = some sn → _
     rw [h2.2.2]; exact hw.2
-  · show (0 : Nat) = costOf s3.map % U64
-    rw [m3]; rfl
+  · intro ha
+    show subW s3.met.currentCost (costOf s.map) = costOf s3.map % U64
+    rw [m3, c3]
+    show subW s2.met.currentCost (costOf s.map) = costOf [] % U64
+    rw [h2.2.1, ha]
+    show subW (costOf s.map % U64) (costOf s.map) = 0 % U64
+    generalize costOf s.map = c
+    unfold subW U64; omega
+
+theorem clearAll_inv (cfg : Cfg) (ops : PolicyOps P) (o : Oracle) (s : State P) (hi : Inv s) :
+    Inv (s.clearAll cfg ops o) :=
+  ⟨(clearAll_invD cfg ops o s hi.1).1, (clearAll_invD cfg ops o s hi.1).2 hi.2⟩
 
 
 /-- a key is (re)written: `map := put …`, the counter gets `+ new cost` and `- old cost` in either order -/
